@@ -81,8 +81,8 @@ class Check:
         path, meta = mirdump.dump(crate, features)
         s.dumps.append(meta)
         return mir.load(path)
-    def decls(s):
-        return rustdecl.load_repo(REPO)
+    def decls(s, prefer=None):
+        return rustdecl.load_repo(REPO, prefer)
     def engine(s, fns, decls, **kw):
         kw.setdefault('seed', s.seed)
         kw.setdefault('models', models.MODELS)
